@@ -3,12 +3,12 @@
 d=$1; p=$2; tier=${3:-quick}
 cd /repo || exit 2
 if [ -n "$(git status --porcelain)" ]; then echo "/repo not clean"; exit 2; fi
-git apply "$d/patch.diff" 2>/dev/null || git apply --3way "$d/patch.diff" || { echo "PATCH DOES NOT APPLY"; git checkout -- . ; exit 3; }
+git apply "$d/patch.diff" 2>/dev/null || git apply --3way "$d/patch.diff" || { echo "PATCH DOES NOT APPLY"; git checkout HEAD -- . ; exit 3; }
 git reset -q 2>/dev/null
 cd /verif && ./check "$p" --tier "$tier" > /tmp/try_seed.$$.log 2>&1; rc=$?
 grep -c "^VIOLATION" /tmp/try_seed.$$.log | sed "s/^/violations: /"
 grep "^VIOLATION" /tmp/try_seed.$$.log | head -3
 tail -2 /tmp/try_seed.$$.log
 rm -f /tmp/try_seed.$$.log
-cd /repo && git checkout -- . && git status --porcelain | head -3
+cd /repo && git checkout HEAD -- . && git status --porcelain | head -3
 echo "exit=$rc"
